@@ -20,6 +20,7 @@ def run(ctx, rep):
     rep.rule('E28', e28_rmodstr.__doc__.strip().split('\n')[0])
     e28_rmodstr.run(facts, rep)
     e28_rmodstr.check_cell_placement(facts, rep)
+    e28_rmodstr.check_digit_range(facts, rep)
     if ctx.tier == 'thorough':
         for cfg, ity in (('ykh-i128', 'i128'), ('ykh-bigint', 'num_bigint::BigInt')):
             f2 = ctx.facts(cfg)
